@@ -920,7 +920,9 @@ where
             // in case the client is sending some custom protocol messages, e.g.
             // SET SHARDING KEY TO 'bigint';
 
-            let message = tokio::select! {
+            // Only the wait for the first byte of the next message can be given up without
+            // losing data: read_message is not cancel safe.
+            tokio::select! {
                 _ = self.shutdown.recv() => {
                     if !self.admin {
                         error_response_terminal(
@@ -933,12 +935,11 @@ where
                     }
 
                     // Admin clients ignore shutdown.
-                    else {
-                        read_message(&mut self.read).await?
-                    }
                 },
-                message_result = read_message(&mut self.read) => message_result?
+                _ = self.read.fill_buf() => (),
             };
+
+            let message = read_message(&mut self.read).await?;
 
             if message[0] as char == 'X' {
                 debug!("Client disconnecting");
